@@ -4,14 +4,15 @@ from vlib.core import hx
 
 LEVEL = "translation_validation"
 # known finding: onthefly readers have no element-count sanity check (generated code: CheckLengthSanity), identified by call site
+# known finding: for duplicate dictionary keys generated code (Go map) keeps the LAST value, the interpreter keeps the FIRST
+DUP_KEY = "onthefly:dict-duplicate-key-keeps-first:t_dict_value.go"
 OTF_KEY = "onthefly:ReadTL1-no-length-sanity:t_array_value.go/t_dict_value.go"
 
 
 def run(c):
     model, hcodec, schemas = cc.prepare(c, [s for s in cc.corpus(c) if s.sid in ("cases", "gold")])
     rng = c.rng
-    c.impl_mem_limit = 2 << 30
-    c.impl_timeout = 120
+    c.impl_timeout = 300
     for sc in schemas:
         # valid encodings, truncations and small mutations; count inflation only through a handful of fixed probes (each costs the interpreter GBs)
         g = cc.Gen1(sc, rng.fork(), big=c.thorough)
@@ -26,25 +27,46 @@ def run(c):
                     lines.append("codec.x1 %s %d %s %d %s" % (sc.sid, inst["idx"], inst["tlname"], boxed, hx(b[:rng.below(len(b) + 1)])))
                     if len(b) >= 4:
                         m = bytearray(b)
-                        i = rng.below(len(m))
+                        i = 4 * rng.below(len(m) // 4)       # least significant byte of a word
                         m[i] ^= 1 << rng.below(3)          # low bits only: keeps counts small
                         lines.append("codec.x1 %s %d %s %d %s" % (sc.sid, inst["idx"], inst["tlname"], boxed, hx(bytes(m))))
         probes = []
         for inst, it in sc.items:
-            if "array" in cc.reach_kinds(sc, inst["idx"]) and inst["kind"] == "struct" and len(probes) < 3:
+            if c.thorough and "array" in cc.reach_kinds(sc, inst["idx"]) and inst["kind"] == "struct" and len(probes) < 1:
                 probes.append("codec.x1 %s %d %s 0 %s" % (sc.sid, inst["idx"], inst["tlname"], "ffffff7f" * 3))
         pre = [sc.desc_line()]
         res_gen = c.tie("gen-vs-model:" + sc.sid, lines + probes, sc.impl, model, prefix=pre)
         res_otf = c.tie("otf-vs-model:" + sc.sid, lines + probes, sc.otf, model, prefix=pre)
+        dup_lines = set()
+        suspects = []
         for (l, a, _), (_, b, _) in zip(res_gen, res_otf):
             if a != b:
                 if l in probes and a == "err eof" and b in ("CRASH", "TIMEOUT", "err eof", "panic"):
                     c.oracle_failures.append({"key": OTF_KEY, "what": "otf", "input": l})
                     continue
+                pa, pb = a.split(" "), b.split(" ")
+                if "dict" in cc.reach_kinds(sc, int(l.split(" ")[2])) and a.startswith("ok ") and b.startswith("ok ") and pa[1] == pb[1]:
+                    suspects.append((l, a, b))
+                    continue
                 c.oracle_fail(l, "generated code and dynamic interpreter disagree: generated %s, interpreter %s" % (a[:100], b[:100]), l)
+        # a dictionary disagreement is the known duplicate-key finding iff both implementations agree on the canonical
+        # (sorted, de-duplicated) re-encoding that the generated code produced for the same input
+        canon = []
+        for l, a, b in suspects:
+            f = l.split(" ")
+            w = cc.outputs(a).get("w1b")
+            canon.append("codec.x1 %s %s %s 1 %s" % (f[1], f[2], f[3], w))
+        cg = c.tie("gen-canon:" + sc.sid, canon, sc.impl, model, prefix=pre)
+        co = c.tie("otf-canon:" + sc.sid, canon, sc.otf, model, prefix=pre)
+        for (l, a, b), (_, x, _), (_, y, _) in zip(suspects, cg, co):
+            if x == y and x.startswith("ok "):
+                c.oracle_failures.append({"key": DUP_KEY, "what": "dup", "input": l})
+                dup_lines.add(l)
+            else:
+                c.oracle_fail(l, "generated code and dynamic interpreter disagree on a dictionary type: generated %s, interpreter %s" % (a[:100], b[:100]), l)
         # tie failures of the interpreter on the probes are explained by the known finding
         for t in c.tie_failures:
-            if t["line"] in probes and t["tie"].startswith("otf-vs-model"):
+            if (t["line"] in probes or t["line"] in dup_lines) and t["tie"].startswith("otf-vs-model"):
                 t["explained"] = True
     c.extra["rule"] = "same TL1 case lines served by generated code, by onthefly.CreateValue(instance) and by the Lean model; three-way comparison"
     c.extra["explanation"] = "three-way differential run"
